@@ -435,6 +435,21 @@ fn check_word(
             } else {
                 rep.count("(2b)_post_breaks_prefix_of_translation");
             }
+            // (2c) TeX §916 puts the left boundary at the beginning of the new line: when the font
+            // has a rule for (left boundary, first letter after the hyphen) the post-break list
+            // cannot be empty (it holds at least the kern or ligature that rule produces)
+            if let Some(c) = rest.chars().next() {
+                if (ctx.has_rule)(None, Some(c)) {
+                    if post.is_empty() {
+                        rep.violation(
+                            "(2c)-post-break-lacks-the-left-boundary-of-the-new-line",
+                            detail(json!({"disc": n.show(), "translation_of_rest": show_list(&full_post)})),
+                        );
+                    } else {
+                        rep.count("(2c)_post_breaks_starting_at_the_left_boundary");
+                    }
+                }
+            }
             taken.push(Taken { a, p, b });
         }
         idx += 1;
@@ -481,10 +496,9 @@ fn check_word(
             rep.count("permitted_positions_taken");
             continue;
         }
-        if let Some(t) = taken.iter().find(|t| t.a < *q && *q < t.b) {
-            if *q < t.p {
-                rep.count("permitted_positions_passed_over_before_the_taken_one");
-            }
+        // TeX takes the *first* odd position of a stretch (reconstitute sets hyphen_passed once,
+        // §909) and passes over later ones until the branches are synchronised: p < q < b.
+        if taken.iter().any(|t| t.p < *q && *q < t.b) {
             rep.count("permitted_positions_passed_over_inside_replaced_letters");
             continue;
         }
